@@ -45,9 +45,9 @@ CLAIMED = {
          'Static typestate: between basic_json::destroy() and the re-initialisation of *this no call that may throw (callee not noexcept) is reachable; apply_patch constructs its automatic-storage unwinder before the first mutation. Quantifies over all paths through the functions, i.e. every allocation point between the two events.',
          'Decides the listed clauses; does not decide that rollback itself cannot fail, nor byte balance of allocate/deallocate.',
          'DESIGN.md §4 C19'),
- 'C14': ('partial evaluation of the escape writers and of the pointer tokenizer into per-character tables; dominance rule for the index grammar test',
-         'Static table agreement: all reference-token escape writers and the tokenizer automaton (4 states x 256 characters) are extracted by partial evaluation and must be mutually inverse per RFC 6901; every token-to-index conversion is followed by the leading-zero rejection. Exhaustive over (state, character) cells and conversion sites.',
-         'Decides escape/un-escape agreement and the index grammar clause; does not decide that the right location is modified for all documents.',
+ 'C14': ('partial evaluation of the escape writers and of the pointer tokenizer into per-character tables; dominance rules for the index grammar test and the bounds rejection; reachability rule error-store-after-mutation',
+         'Static table agreement: all reference-token escape writers and the tokenizer automaton (4 states x 256 characters) are extracted by partial evaluation and must be mutually inverse per RFC 6901; every token-to-index conversion is followed by the leading-zero rejection; every use of the index as an array position is dominated by the exact bounds rejection; no error store is reachable after a document mutation in add/add_if_absent/replace/remove/resolve. Exhaustive over (state, character) cells, conversion sites, position uses and mutation sites.',
+         'Decides escape/un-escape agreement, the index grammar and bounds clauses and error-before-mutation (intraprocedural); does not decide that the right location is modified for all documents.',
          'DESIGN.md §4 C14'),
  'C15': ('path rules over the CFG of apply_patch (must-pass-through of the inverse undo entry after every mutation, commit dominance, total dispatch) and of the unwinder',
          'Static path rules: after every mutating jsonpointer call on the target, every path to the next operation passes exactly the inverse undo entry at the same path with the value read before the mutation; commit is assigned only after the loop and every error return marks abort; an unknown op stores an error; the unwinder replays every op_type in reverse with the matching call. Quantifies over all paths through apply_patch, i.e. every failure point of every operation sequence shape.',
